@@ -581,17 +581,12 @@ class Interp:
                 if not simple:
                     break
             if simple:
-                if errs:
+                if errs and self.spec_depth:
+                    # in a clause an ill-typed ordering is simply false (a None is never "within limits")
+                    self.note("clause compares values of which some alternatives are not ordered; those count as false")
+                elif errs:
                     eg = z3.Or(errs)
-                    if self.hyp:
-                        if self.ctx.solver.check(*(self.hyp + [eg])) != z3.unsat:
-                            if self.spec_depth:
-                                raise SpecError("ill-typed comparison %s on %r, %r" % (opn, a, b))
-                            if self.ctx.branch(eg):
-                                self.raise_("TypeError", "'%s' not supported" % opn)
-                    elif self.ctx.branch(eg):
-                        if self.spec_depth:
-                            raise SpecError("ill-typed comparison %s on %r, %r" % (opn, a, b))
+                    if self.ctx.branch(eg):
                         self.raise_("TypeError", "'%s' not supported" % opn)
                 return VBool(z3.Or(oks + [z3.BoolVal(False)]))
         a = self.force(a)
@@ -611,7 +606,8 @@ class Interp:
                 res = z3.Or(strict, z3.And(self.eq(x, y), res))
             return VBool(res)
         if self.spec_depth:
-            raise SpecError("ill-typed comparison %s on %r, %r" % (opn, a, b))
+            self.note("clause compares values that are not ordered (%s, %s); counts as false" % (a.tag, b.tag))
+            return VBool(False)
         self.raise_("TypeError", "'%s' not supported between %s and %s" % (opn, a.tag, b.tag))
 
     def _order1(self, opn, a, b):
